@@ -4,7 +4,8 @@ The Lichess PGN export layout, written as a *printer* (specification side of pro
   [Name "Value"]\n          one line per tag pair, at least one
   \n                        blank line
   1. e4 { c } 1... e5 2. Nf3 Nc6 1-0      one-line movetext: every move is followed by one space, a comment is
-                                          ` {` bytes `}` after the SAN token, the result token comes last
+                                          ` {` bytes `}` after the SAN token, the result token comes last;
+                                          a move-number token (`3.` / `3...`) may precede any move
   \n ... \n                 `trailing` line breaks (1 = only the end of the movetext line, 2 = plus a blank line,
                             3 = Lichess; 0 is allowed for the last game only: file without final newline)
 
@@ -28,24 +29,41 @@ def Result.token : Result → List UInt8
 def resultTokens : List (List UInt8) :=
   [Result.whiteWins.token, Result.blackWins.token, Result.draw.token, Result.unknown.token]
 
-/-- move numbers: none / `3.` before white moves / `3.` before white and `3...` before black moves -/
-inductive Numbering where
-  | none | white | both
-deriving DecidableEq, Repr, Inhabited
-
+/-- one half-move.  `numbered`: a move-number token is printed in front of it (`3.` for White, `3...` for
+Black); any mix is allowed, the usual styles are given by `Numbering.apply` below. -/
 structure Move where
   san : List UInt8
   comment : Option (List UInt8)
+  numbered : Bool
 deriving DecidableEq, Repr, Inhabited
 
 structure Game where
   tags : List (List UInt8 × List UInt8)
   moves : List Move
   result : Result
-  numbering : Numbering
   /-- number of `\n` after the result token -/
   trailing : Nat
 deriving DecidableEq, Repr, Inhabited
+
+/-- move-number styles: none / `3.` before white moves only / `3.` and `3...` before every move /
+Lichess: `3.` before white moves and `3...` before a black move iff White's move carries a comment -/
+inductive Numbering where
+  | none | white | both | lichess
+deriving DecidableEq, Repr, Inhabited
+
+/-- set the `numbered` flags of half-moves `i, i+1, …` (`prevComment`: the move before has a comment) -/
+def Numbering.applyFrom (nb : Numbering) : Nat → Bool → List (List UInt8 × Option (List UInt8)) → List Move
+  | _, _, [] => []
+  | i, prevComment, (san, c) :: rest =>
+    let flag := match nb with
+      | .none => false
+      | .white => i % 2 == 0
+      | .both => true
+      | .lichess => i % 2 == 0 || prevComment
+    ⟨san, c, flag⟩ :: Numbering.applyFrom nb (i + 1) c.isSome rest
+
+def Numbering.apply (nb : Numbering) (ms : List (List UInt8 × Option (List UInt8))) : List Move :=
+  nb.applyFrom 0 false ms
 
 /-! ## Printer -/
 
@@ -67,26 +85,25 @@ def renderTag (t : List UInt8 × List UInt8) : List UInt8 :=
 def renderTags (ts : List (List UInt8 × List UInt8)) : List UInt8 := (ts.map renderTag).flatten
 
 /-- the move-number token (with its following space) in front of half-move `i` (0 = white's first move) -/
-def numberPrefix (nb : Numbering) (i : Nat) : List UInt8 :=
-  match nb with
-  | .none => []
-  | .white => if i % 2 = 0 then decimal (i / 2 + 1) ++ [46, 32] else []
-  | .both => if i % 2 = 0 then decimal (i / 2 + 1) ++ [46, 32] else decimal (i / 2 + 1) ++ [46, 46, 46, 32]
+def numberPrefix (numbered : Bool) (i : Nat) : List UInt8 :=
+  if numbered then
+    if i % 2 = 0 then decimal (i / 2 + 1) ++ [46, 32] else decimal (i / 2 + 1) ++ [46, 46, 46, 32]
+  else []
 
 def renderComment : Option (List UInt8) → List UInt8
   | none => []
   | some c => [32, 123] ++ c ++ [125]
 
 /-- half-move `i`, followed by one space -/
-def renderMove (nb : Numbering) (i : Nat) (m : Move) : List UInt8 :=
-  numberPrefix nb i ++ m.san ++ renderComment m.comment ++ [32]
+def renderMove (i : Nat) (m : Move) : List UInt8 :=
+  numberPrefix m.numbered i ++ m.san ++ renderComment m.comment ++ [32]
 
-def renderMoves (nb : Numbering) : Nat → List Move → List UInt8
+def renderMoves : Nat → List Move → List UInt8
   | _, [] => []
-  | i, m :: ms => renderMove nb i m ++ renderMoves nb (i + 1) ms
+  | i, m :: ms => renderMove i m ++ renderMoves (i + 1) ms
 
 def renderGame (g : Game) : List UInt8 :=
-  renderTags g.tags ++ [10] ++ renderMoves g.numbering 0 g.moves ++ g.result.token ++ List.replicate g.trailing 10
+  renderTags g.tags ++ [10] ++ renderMoves 0 g.moves ++ g.result.token ++ List.replicate g.trailing 10
 
 /-- the whole database: the games one after the other (blank lines come from `trailing`) -/
 def render (gs : List Game) : List UInt8 := (gs.map renderGame).flatten
